@@ -30,6 +30,7 @@ THEOREMS = [
     "Nix.C09.scaling_shape_ratio",
     "Nix.C09.split_captures",
     "Nix.C09.scaling_total_exact",
+    "Nix.C09.scaling_compose_invert_general",
     "Nix.C09.scaling_positive",
     "Nix.C09.scalable_equivalence",
     "Nix.C09.scaling_identity",
